@@ -17,11 +17,12 @@ STATUS.
    represents the abstract message reached by the specification's steps with M's return codes (through
    C04's refinement lemmas: Lemmas/EditItems, EditPatch, EditRefine, EditApi, EditTrace).
    `build_view_partial` (append path in closed form) is kept.
- * `refused_is_noop` at full strength is FALSE on the current tree: witness
-   `refused_proxy_leaves_hop_limit` (open finding hop-limit-left-by-refused-proxy).  Proved instead:
-   `refused_is_noop_partial` — every refused call of every kind is a no-op outside the D13 domain
-   (Proxy-Uri / Proxy-Scheme added to a request without Hop-Limit), and `refused_changes_only_hop_limit`
-   — inside that domain a refused call changes nothing or leaves exactly Hop-Limit = 16 behind.
+ * `refused_is_noop` at full strength: EVERY refused call of every kind (add_token, add_option, insert, update,
+   remove, update_token, add_data) leaves the PDU — every byte, `max_opt`, the payload offset, hence the view —
+   exactly as it was.  This was false until the open finding hop-limit-left-by-refused-proxy was fixed in libcoap
+   (coap_add_option_internal now removes the implicit Hop-Limit again when the Proxy-Uri / Proxy-Scheme option it
+   was added for is refused); the old witness is kept as a comment next to `refused_proxy_leaves_nothing`.
+   `refused_when` says WHEN add_token / append / add_data are refused.
 -/
 namespace Coap.C01
 open Coap Coap.M
@@ -108,7 +109,11 @@ theorem addOption_is_append (pdu : Pdu) (n : Nat) (v : Bytes) (hd : pdu.data = n
   have h1 : ¬ (v.length > 65804) := by omega
   have h2 : ¬ (n < pdu.maxOpt) := by omega
   simp only [addOption, hd, Option.isSome_none, Bool.false_eq_true, if_false, addOptionInternal, addInternalK, h1, hrep, hhop,
-    R.bind_ok, bind, R.bind, h2]
+    bind, R.bind, h2]
+  cases appendOption pdu n v with
+  | ok r => simp
+  | rej => rfl
+  | oob => rfl
 
 /-- PARTIAL `build_view`: one accepted call on the APPEND path maps the PDU that represents `a` to the PDU that
 represents the abstract result (stable insertion = append behind the highest number), and the return value is the
@@ -141,7 +146,7 @@ theorem build_payload (ms : Nat) (a : Msg) (d : Bytes) (hp : a.payload = []) (hd
 its six header-rewrite cases, updates, removals, token replacements, payload; any capacity, so with refusals at any
 step) M never leaves the buffer and ends on the PDU that represents the abstract message `a` obtained from `a₀` by the
 specification's steps with exactly M's return codes (`Trace`: accepted = the abstract operation, D13's Hop-Limit only
-where allowed; refused = nothing — or the open finding, `Step.leftover`); and the decoder's view of that PDU is `a`
+where allowed; refused = nothing); and the decoder's view of that PDU is `a`
 whenever the caller kept the RFC length limits. -/
 theorem build_view (ms : Nat) (a₀ : Msg) (cs : List Call) (hs : Shape a₀) (hc : ∀ c ∈ cs, callNumOk c) :
     ∃ rcs a, run (conc ms a₀) cs = R.ok (rcs, conc ms a) ∧ Trace a₀ cs rcs a ∧ Shape a ∧
@@ -173,60 +178,69 @@ theorem accepted_step_is_spec (hop : Bool) (a : Msg) (n : Nat) (v : Bytes) :
     callSem hop a (.removeOption n) = { a with opts := Spec.removeFirst n a.opts } :=
   ⟨rfl, rfl, rfl, rfl⟩
 
-/-- PARTIAL `refused_is_noop`: a refused coap_add_token (not first / too long / no space), a refused append (no
-space) and a refused coap_add_data (payload present / no space) return 0 and leave the PDU exactly as it was; and EVERY
-refused call of every kind (add_option, insert, update, remove, update_token included) leaves the PDU exactly as it was
-— outside the D13 domain `hopDomain` (Proxy-Uri / Proxy-Scheme added to a request that has no Hop-Limit).
-FULL STATEMENT (FALSE on the current tree, see the witness below):
-  `M.call pdu c = R.ok (0, pdu') → pdu' = pdu` for every call `c`.
-What a refused call does inside the excluded domain is `refused_changes_only_hop_limit`. -/
-theorem refused_is_noop_partial (ms : Nat) (a : Msg) :
+/-- WHEN the builders refuse: a coap_add_token that is not first / too long / without space, an append without space
+and a coap_add_data with a payload present / without space return 0 and leave the PDU exactly as it was
+(formerly the first three conjuncts of `refused_is_noop_partial`) -/
+theorem refused_when (ms : Nat) (a : Msg) :
     (∀ t, ((conc ms a).buf ≠ [] ∨ t.length > 65804 ∨ (ms ≠ 0 ∧ (Spec.extBytes t.length).length + t.length > ms)) →
         addToken (conc ms a) t = R.ok (0, conc ms a)) ∧
     (∀ n v, (ms ≠ 0 ∧ (conc ms a).buf.length + optEncodeSize ((n - lastNum a.opts) % 65536) v.length > ms) →
         appendOption (conc ms a) n v = R.ok (0, conc ms a)) ∧
     (∀ d, d ≠ [] → (a.payload ≠ [] ∨ (ms ≠ 0 ∧ (conc ms a).buf.length + d.length + 1 > ms)) →
-        addData (conc ms a) d = R.ok (0, conc ms a)) ∧
-    (∀ c pdu', Shape a → callNumOk c → hopDomain a c = false → call (conc ms a) c = R.ok (0, pdu') → pdu' = conc ms a) := by
-  refine ⟨fun t h => addToken_refused ms a t h, fun n v h => appendOption_refused ms a n v h,
-   fun d hd h => addData_refused ms a d hd h, ?_⟩
-  intro c pdu' hs hc hdom h
+        addData (conc ms a) d = R.ok (0, conc ms a)) :=
+  ⟨fun t h => addToken_refused ms a t h, fun n v h => appendOption_refused ms a n v h,
+   fun d hd h => addData_refused ms a d hd h⟩
+
+/-- **refused_is_noop**, full strength: every refused call of every kind — coap_add_token, coap_add_option,
+coap_insert_option, coap_update_option, coap_remove_option, coap_update_token, coap_add_data, whatever the reason (value
+too long, illegal repetition, no space at any of the places where space is tested, payload present, nothing to remove)
+— on the PDU representing any abstract message the API can produce leaves that PDU exactly as it was: the same bytes,
+`max_opt` and payload offset, hence the same view.  In particular a refused Proxy-Uri / Proxy-Scheme takes its implicit
+Hop-Limit with it (libcoap fix; before it this theorem was false and only held outside `hopDomain`). -/
+theorem refused_is_noop (ms : Nat) (a : Msg) (c : Call) (pdu' : Pdu) (hs : Shape a) (hc : callNumOk c)
+    (h : call (conc ms a) c = R.ok (0, pdu')) : pdu' = conc ms a ∧ view pdu' = view (conc ms a) := by
   rw [call_conc ms a c hs hc] at h
   injection h with h
   injection h with h1 h2
   have hstep := absCall_step ms a c
   rw [h1] at hstep
-  rw [← h2]
-  generalize (absCall ms a c).2 = a' at hstep
-  cases hstep with
-  | accepted rc hop hne _ => exact absurd rfl hne
-  | refused => rfl
-  | leftover hd => rw [hdom] at hd; cases hd
+  have : pdu' = conc ms a := by
+    rw [← h2]
+    generalize (absCall ms a c).2 = a' at hstep
+    cases hstep with
+    | accepted rc hop hne _ => exact absurd rfl hne
+    | refused => rfl
+  exact ⟨this, by rw [this]⟩
 
-/-- the excluded domain, exactly: a refused call changes nothing, or it is a Proxy-Uri / Proxy-Scheme on a request
-without Hop-Limit and what it leaves behind is precisely the option Hop-Limit = 16 at its sorted position (the open
-finding; every other byte of the message, `max_opt` and the payload offset are those of the representing PDU) -/
-theorem refused_changes_only_hop_limit (ms : Nat) (a : Msg) (c : Call) (pdu' : Pdu) (hs : Shape a) (hc : callNumOk c)
-    (h : call (conc ms a) c = R.ok (0, pdu')) :
-    pdu' = conc ms a ∨
-    (hopDomain a c = true ∧ pdu' = conc ms { a with opts := Spec.insertStable 16 [16] a.opts }) := by
-  rw [call_conc ms a c hs hc] at h
-  injection h with h
-  injection h with h1 h2
-  have hstep := absCall_step ms a c
-  rw [h1] at hstep
-  rw [← h2]
-  generalize (absCall ms a c).2 = a' at hstep
-  cases hstep with
-  | accepted rc hop hne _ => exact absurd rfl hne
-  | refused => exact Or.inl rfl
-  | leftover hd => exact Or.inr ⟨hd, rfl⟩
+/-- … and over whole scripts: the calls that return 0 can be deleted from any script without changing where it ends -/
+theorem refused_calls_are_skippable (ms : Nat) (a : Msg) (c : Call) (cs : List Call) (rcs : List Nat) (pdu' : Pdu)
+    (hs : Shape a) (hc : callNumOk c) (h : run (conc ms a) (c :: cs) = R.ok (0 :: rcs, pdu')) :
+    run (conc ms a) cs = R.ok (rcs, pdu') := by
+  simp only [run] at h
+  cases hcall : call (conc ms a) c with
+  | rej => simp [hcall] at h
+  | oob => simp [hcall] at h
+  | ok r =>
+    obtain ⟨rc, p1⟩ := r
+    simp only [hcall] at h
+    cases hrun : run p1 cs with
+    | rej => simp [hrun] at h
+    | oob => simp [hrun] at h
+    | ok q =>
+      obtain ⟨rcs', p2⟩ := q
+      simp only [hrun, R.ok.injEq, Prod.mk.injEq, List.cons.injEq] at h
+      obtain ⟨⟨rfl, rfl⟩, rfl⟩ := h
+      rw [(refused_is_noop ms a c p1 hs hc hcall).1] at hrun
+      exact hrun
 
-/-- WITNESS of the open finding hop-limit-left-by-refused-proxy (replay: build udp 12 0 1 1 O35:*20*1): on a GET with
-room for 12 bytes, adding a 20-byte Proxy-Uri returns 0 — and the PDU now holds Hop-Limit = 16 -/
-theorem refused_proxy_leaves_hop_limit :
+/-- the replay of the former open finding (build udp 12 0 1 1 O35:*20*1): on a GET with room for 12 bytes, adding a
+20-byte Proxy-Uri returns 0 — and nothing is left behind.  Before the libcoap fix the kernel-checked WITNESS was
+  theorem refused_proxy_leaves_hop_limit :
+      addOption (conc 12 ⟨0, 1, 1, [], [], []⟩) 35 (List.replicate 20 0x61) =
+        R.ok (0, conc 12 ⟨0, 1, 1, [], [(16, [16])], []⟩) := by decide -/
+theorem refused_proxy_leaves_nothing :
     addOption (conc 12 ⟨0, 1, 1, [], [], []⟩) 35 (List.replicate 20 0x61) =
-      R.ok (0, conc 12 ⟨0, 1, 1, [], [(16, [16])], []⟩) := by decide
+      R.ok (0, conc 12 ⟨0, 1, 1, [], [], []⟩) := by decide
 
 /-! ### non-vacuity -/
 
@@ -241,9 +255,11 @@ example : ∃ rcs a, run (conc 0 ⟨0, 1, 7, [], [], []⟩) [.addToken [1], .add
     R.ok (rcs, conc 0 a) ∧ Trace ⟨0, 1, 7, [], [], []⟩ [.addToken [1], .addOption 300 [1], .addOption 3 [0x68]] rcs a ∧
     Shape a ∧ (a.code ≠ 0 → Spec.optsOk a.code 0 a.opts = true → view (conc 0 a) = some a) :=
   build_view 0 ⟨0, 1, 7, [], [], []⟩ _ ⟨by decide, by decide, by decide⟩ (by decide)
-/-- a refused call outside the D13 domain (no room for Uri-Path in 3 bytes) -/
-example : call (conc 3 ⟨0, 1, 7, [1], [], []⟩) (.insertOption 11 [0x61, 0x62]) = R.ok (0, conc 3 ⟨0, 1, 7, [1], [], []⟩) ∧
-    hopDomain ⟨0, 1, 7, [1], [], []⟩ (.insertOption 11 [0x61, 0x62]) = false := by decide
+/-- refused calls (no room for Uri-Path in 3 bytes; a 20-byte Proxy-Uri after its Hop-Limit in 12 bytes, payload present) -/
+example : call (conc 3 ⟨0, 1, 7, [1], [], []⟩) (.insertOption 11 [0x61, 0x62]) = R.ok (0, conc 3 ⟨0, 1, 7, [1], [], []⟩) := by decide
+example : call (conc 12 ⟨0, 1, 7, [1], [(11, [0x61])], [9]⟩) (.updateOption 39 (List.replicate 20 0x61)) =
+    R.ok (0, conc 12 ⟨0, 1, 7, [1], [(11, [0x61])], [9]⟩) ∧
+    hopDomain ⟨0, 1, 7, [1], [(11, [0x61])], [9]⟩ (.updateOption 39 (List.replicate 20 0x61)) = true := by decide
 
 example : Spec.WF .udp ⟨0, 1, 0x1234, [1, 2], [(11, [0x61]), (11, [0x62]), (12, [])], [0x68, 0x69]⟩ := by decide
 example : Spec.encode .udp ⟨0, 1, 0x1234, [1, 2], [(11, [0x61]), (11, [0x62]), (12, [])], [0x68, 0x69]⟩ =
